@@ -773,6 +773,39 @@ func rulesC17(c *Ctx) {
 		}
 		c.Check(okCopy, "paginate:follows-next-cursor", it, nil, "the next cursor is copied into the params on every path that fetches another page (otherwise the same page is fetched forever)")
 		c.Check(okStop, "paginate:stops-on-empty-cursor", it, nil, "iteration ends when NextCursor is nil or empty")
+		// ... and for no other reason: what stands between a fetched page and the next fetch is the cursor test and nothing
+		// else (an empty page with a cursor — a filtered page, a server that pads — is not the end: manual paging goes on)
+		for _, w := range Writes(it.Body, false) {
+			st, ok := ast.Unparen(w.LHS).(*ast.StarExpr)
+			if !ok || !strings.Contains(exprStr(st.X), "cursorPtr") {
+				continue
+			}
+			extra := ""
+			for _, a := range g.GuardsAt(g.VertexOf(w.Stmt)) {
+				if isCompound(a.E) {
+					continue
+				}
+				if u, isU := a.E.(*ast.UnaryExpr); isU && u.Op == token.NOT {
+					continue
+				}
+				if _, _, isNil := NilTest(a.E); isNil {
+					continue
+				}
+				if strings.Contains(exprStr(a.E), "== \"\"") || strings.Contains(exprStr(a.E), "!= \"\"") {
+					continue
+				}
+				// the error test of the list call and the consumer's "stop" are on the way too
+				if id, isID := ast.Unparen(a.E).(*ast.Ident); isID {
+					_ = id
+					continue
+				}
+				if ce, isC := ast.Unparen(a.E).(*ast.CallExpr); isC && it.ObjOf(ce.Fun) == types.Object(yield) {
+					continue
+				}
+				extra = a.String()
+			}
+			c.Check(extra == "", "paginate:stops-only-on-empty-cursor", it, w.Stmt, "only the cursor test (and the error / consumer-stop tests) stands between a fetched page and the next fetch (also found: %s)", extra)
+		}
 		// error: yield(nil, err) then return
 		var listErr types.Object
 		for _, w := range Writes(it.Body, false) {
